@@ -223,3 +223,114 @@ func c02Harnesses(prog *MProgram) []Harness {
 	}
 	return hs
 }
+
+// entryC18 emits the DeepEqual harnesses.
+func entryC18(g *harnessGen, pkg string) string {
+	base := entryC02(g, pkg) // also provides zzWriteBytes and the differential
+	var sb strings.Builder
+	sb.WriteString(base)
+	for _, s := range g.f.Structs {
+		n, gn := s.Name, goName(s.Name)
+		fmt.Fprintf(&sb, `// H_C18_deepequal_%[1]s: DeepEqual is structural equality of two arbitrary values.
+// mode 0: x and y are built independently; mode 1: y has the presence structure of x except
+// for one freely chosen optional member / union arm (all scalar leaves independent).
+func H_C18_deepequal_%[1]s(mode, n int) {
+	zzLen = n
+	var x, y *%[2]s
+	if mode == 0 {
+		x = zzSym_%[1]s(zzDepth)
+		y = zzSym_%[1]s(zzDepth)
+	} else {
+		rec := &zzRecLeaves{}
+		zzL = rec
+		x = zzSym_%[1]s(zzDepth)
+		zzL = &zzMirrorLeaves{rec: rec, flip: zzrt.Choose("flip", len(rec.bools)+len(rec.chooses)+1)}
+		y = zzSym_%[1]s(zzDepth)
+		zzL = zzSymLeaves{}
+	}
+	vx, vy := zzFrom_%[1]s(x), zzFrom_%[1]s(y)
+	zzrt.Assume(!zzHasNaN(zzT_%[1]s, vx) && !zzHasNaN(zzT_%[1]s, vy))
+	got := x.DeepEqual(y)
+	want := zzSameValue(zzT_%[1]s, vx, vy)
+	zzrt.Assert(got == want, "DeepEqual is true exactly when both hold the same value")
+	zzrt.Assert(y.DeepEqual(x) == got, "DeepEqual is symmetric")
+	zzrt.Assert(x.DeepEqual(x), "DeepEqual is reflexive")
+	if want {
+		zzrt.Cover("equal")
+	} else {
+		zzrt.Cover("different")
+	}
+}
+
+// H_C18_nil_%[1]s: nil receivers and arguments never panic.
+func H_C18_nil_%[1]s() {
+	zzLen = 1
+	x := zzSym_%[1]s(zzDepth)
+	var nilp *%[2]s
+	zzrt.Assert(!x.DeepEqual(nil), "a value differs from nil")
+	zzrt.Assert(!nilp.DeepEqual(x), "nil differs from a value")
+	zzrt.Assert(nilp.DeepEqual(nil), "nil equals nil")
+	zzrt.Assert((&%[2]s{}).DeepEqual(&%[2]s{}), "zero values are equal")
+	zzrt.Cover("end")
+}
+
+`, n, gn)
+		hasSet := false
+		for _, f := range s.Fields {
+			if _, rt := g.p.resolve(g.f, f.Type); rt.Kind == "set" {
+				hasSet = true
+			}
+		}
+		if hasSet {
+			fmt.Fprintf(&sb, `// H_C18_setdup_%[1]s: Write rejects exactly the sets that contain two equal elements.
+func H_C18_setdup_%[1]s(n int) {
+	zzLen = n
+	zzL = zzSymLeavesFree{}
+	x := zzSym_%[1]s(zzDepth)
+	zzL = zzSymLeaves{}
+	vx := zzFrom_%[1]s(x)
+	zzrt.Assume(!zzHasNaN(zzT_%[1]s, vx))
+	dup := zzSetDup(zzT_%[1]s, vx)
+	_, err := zzWriteBytes(x)
+	zzrt.Assert((err != nil) == dup, "Write fails exactly when a set holds two equal elements")
+	if dup {
+		zzrt.Cover("dup")
+	} else {
+		zzrt.Cover("nodup")
+	}
+}
+
+`, n)
+		}
+	}
+	return sb.String()
+}
+
+func c18Harnesses(prog *MProgram) []Harness {
+	var hs []Harness
+	for _, f := range prog.Files {
+		for _, s := range f.Structs {
+			hs = append(hs, Harness{Func: "H_C18_deepequal_" + s.Name, Quick: tuples([]int64{1}, seq(0, 1)), Thorough: tuples(seq(0, 1), seq(0, 2)), Covers: []string{"equal", "different"}})
+			hs = append(hs, Harness{Func: "H_C18_nil_" + s.Name, Covers: []string{"end"}})
+			for _, fl := range s.Fields {
+				if fl.Type.Kind == "set" {
+					hs = append(hs, Harness{Func: "H_C18_setdup_" + s.Name, Quick: rng(2, 2), Thorough: rng(2, 3), Covers: []string{"dup", "nodup"}})
+					break
+				}
+			}
+		}
+	}
+	return hs
+}
+
+func init() {
+	register(&Prop{
+		ID:        "C18",
+		Functions: []string{"generated (*T).DeepEqual and FieldNDeepEqual for every struct-like of the corpus", "generated Write (set uniqueness validation)", "strings.Compare / bytes.Compare"},
+		Bounds:    "two independent symbolic values x, y of every struct-like of the corpus (all leaves full-width symbolic, optional presence symbolic, map keys symbolic so key sets may differ), containers/strings of length n (quick 0..1, thorough 0..2); set validation with 2 (thorough 3) free elements per set",
+		Assumptions: []string{"doubles are not NaN (the statement does not say)", "struct-typed map values and list elements are non-nil", "struct-typed map keys are outside the corpus", "the programs dimension is the designed corpus"},
+		Variants: []*Prop{
+			genVariant("gen_deep_equal", "gen_deep_equal", genOpts{}, "zzgen/a", entryC18, c18Harnesses),
+		},
+	})
+}
